@@ -49,6 +49,18 @@ func CaptureGens13(sink *[]Gen13) func() {
 	}
 }
 
+// SnapshotGens13 returns a copy of what the active capture has collected so far (for decoders that work
+// while the handshake is still running).
+func SnapshotGens13() []Gen13 {
+	hookMu.Lock()
+	defer hookMu.Unlock()
+	if hookSink == nil {
+		return nil
+	}
+
+	return append([]Gen13(nil), *hookSink...)
+}
+
 // HelloRandoms extracts the client random of the last ClientHello and the server random of the
 // (non-retry) ServerHello from the tap; ok is false if either hello was fragmented away.
 func HelloRandoms(p *Pair) (cr, sr []byte, suite uint16, ok bool) {
